@@ -19,6 +19,12 @@ CHECKS = {
             "out[0]==start, linearity, each step is trapezoid or primary stencil, primary only on windows whose steps "
             "agree within 1%, trapezoid at the ends, exact cubic integration on uniform grids.", "DESIGN.md#c20", ""),
 }
+CHECKS["C01"] = (
+    "For every symbolic variance density (any sign, structural NaN placements), every symbolic band (fmin,fmax) and "
+    "defaults, grids of nf<=4 (thorough 6) incl. a fully symbolic increasing grid, layouts ()/(time)/(time,lat)/"
+    "flattened: frequency_moment(n), n=0..4, equals the trapezoid over in-band nodes with NaN as 0; m0/m1/m2, Hm0, "
+    "Tm01, Tm02 satisfy their definitions; linearity through multiply/__add__/__sub__/__neg__; for e>=0 "
+    "m1^2<=m0*m2 and the period bounds; 2D moments equal those of sum_theta E*dtheta.", "DESIGN.md#c01", "")
 NA = {}
 
 ALL = [f"C{i:02d}" for i in range(1, 21)]
